@@ -991,10 +991,11 @@ def _claim_on_retry(fn, start, w, c):
             return False
         if t['k'] == 'switch':
             edges = [tb for _, tb in t['targets']] + [t['otherwise']]
-            with_claim = [e for e in edges if c in fn.reachable_blocks(e, avoid={w})]
+            cs = set(c) if isinstance(c, (set, frozenset, list, tuple)) else {c}
+            with_claim = [e for e in edges if cs & fn.reachable_blocks(e, avoid={w})]
             if not with_claim:
                 return False
-            return all(fn.must_pass(e, {w}, {c}) for e in with_claim)
+            return all(fn.must_pass(e, {w}, cs) for e in with_claim)
         nxt = fn.succs(cur)
         if len(nxt) != 1:
             return False
@@ -1018,17 +1019,20 @@ def c04_steal(ctx):
         out.append(bad(R, key, 'the blocked caller no longer retries to claim the queue after being woken (wait %d, claim %d, run %d)' % (len(waits), len(claims), len(runs)), fn=sb.name))
         return out
     w = waits[0][0]
-    c = claims[0][0]
     after_wait = sb.reachable_blocks(waits[0][1]['target'], avoid={w})
-    if c not in after_wait or w not in sb.reachable_blocks(c):
+    # the claim sites of the wait loop (a claim tried before the first wait - "nobody is running it: take it now" - is not one of them)
+    in_loop = [cb for cb, _ in claims if cb in after_wait and w in sb.reachable_blocks(cb)]
+    if not in_loop:
         out.append(bad(R, key, 'claim_pending_queue is not inside the wait loop', fn=sb.name))
     else:
         # every path from the wait's return back to the wait passes the claim, unless the job completed (loop exit)
-        e = result_edges(sb, c)
-        t_edge = e.get('otherwise') if e else None
-        if t_edge is None or not any(edom(sb, t_edge, r[0]) for r in runs):
+        def leads_to_run(c_):
+            e = result_edges(sb, c_)
+            t_edge = e.get('otherwise') if e else None
+            return t_edge is not None and any(edom(sb, t_edge, r[0]) for r in runs)
+        if not all(leads_to_run(c_) for c_ in in_loop):
             out.append(bad(R, key, 'a successful claim does not lead to running the queue', fn=sb.name))
-        elif not _claim_on_retry(sb, waits[0][1]['target'], w, c):
+        elif not _claim_on_retry(sb, waits[0][1]['target'], w, set(in_loop)):
             out.append(bad(R, key, 'the caller can go back to waiting after a wake-up without trying to claim the queue: with no free pool thread nobody runs it', fn=sb.name))
         else:
             out.append(ok(R, key, 'after each wake-up that did not complete the job the caller tries to claim the queue and, if it succeeds, runs it', fn=sb.name))
